@@ -134,3 +134,17 @@ package preconfirmed
 //@   ensures built: result1 == nil && len(entries) > 0 ==> result0.length == len(entries) && result0.head != nil && result0.head.preconfirmed == entries[len(entries) - 1]
 //@   ensures nonnil_checked: result1 == nil ==> (forall i int :: 0 <= i && i < len(entries) ==> entries[i] != nil)
 //@   ensures gapfree_checked: result1 == nil ==> (forall i int :: 1 <= i && i < len(entries) ==> entries[i].Block.Header.Number == uint64(entries[i-1].Block.Header.Number + 1))
+
+// ---- a view's iteration stays inside the view (C20) --------------------------------------------------
+// Head-aligned views made by SnapshotForBlock SHARE the stored nodes and are shortened only through
+// their length: the walk over a view hands the consumer at most `length` entries, however far the
+// parent pointers of the shared nodes reach. (The consumer - the body of a range loop - is assumed
+// not to write the chain.)
+//@ func (*ChainReader).NewestFirst$1
+//@   props C20
+//@   arith int
+//@   nosafe
+//@   purecallback yield
+//@   requires *c != nil && (*c).length >= 0
+//@   loop 1: invariant bounded_by_the_views_length: 0 <= count && count <= (*c).length && calls(yield) == old(calls(yield)) + count
+//@   ensures at_most_length_entries: calls(yield) <= old(calls(yield)) + (*c).length
